@@ -26,8 +26,13 @@ if [ "$applies" != no ]; then
     nres=$(echo "$out" | grep -c "^test result")
     if [ "$fails" = 0 ] && [ "$clockfails" != 0 ]; then
       # wall-clock tests are load sensitive: retry them serially
-      out2=$(cargo test --offline -p nexosim --test integration -- --test-threads=1 simulation_scheduling simulation_clock_sync 2>&1)
-      fails=$(echo "$out2" | grep -E "^test .* FAILED" | grep -v "^test result" | grep -v "system_clock_from_instant_mt" | wc -l)
+      # (the machine may be loaded by other jobs: up to 4 serial attempts, one green attempt is enough)
+      for attempt in 1 2 3 4; do
+        out2=$(cargo test --offline -p nexosim --test integration -- --test-threads=1 simulation_scheduling simulation_clock_sync 2>&1)
+        fails=$(echo "$out2" | grep -E "^test .* FAILED" | grep -v "^test result" | grep -v "system_clock_from_instant_mt" | wc -l)
+        [ "$fails" = 0 ] && break
+        sleep 5
+      done
     fi
     if [ "$fails" = 0 ] && [ "$nres" -ge 4 ]; then suite=pass; else suite="fail:$(echo "$out" | grep -E '^test .* FAILED' | grep -v '^test result' | head -3 | tr '\n' ';')"; fi
     # demos
